@@ -319,6 +319,18 @@ where
     fn step(
         &mut self,
     ) -> Result<(Self::RealField, BVector<Self::Field, D>), IVPStatus<Self::Error>> {
+        #[cfg(bacon_verif)]
+        crate::verif_hooks::emit(crate::verif_hooks::Snapshot {
+            kind: "euler",
+            order: 1,
+            time: crate::verif_hooks::to_f64(self.time.real()),
+            dt: crate::verif_hooks::to_f64(self.dt.real()),
+            yield_memory: 0,
+            values_len: 0,
+            values_first: 0.0,
+            values_last: 0.0,
+            derivs_len: 0,
+        });
         if self.time.real() >= self.end.real() {
             return Err(IVPStatus::Done);
         }
@@ -340,6 +352,29 @@ where
 
     fn time(&self) -> Self::RealField {
         self.time.real()
+    }
+}
+
+#[cfg(bacon_verif)]
+impl<'a, N, D, T, F> Euler<'a, N, D, T, F>
+where
+    N: ComplexField + Copy,
+    D: Dimension,
+    T: Clone,
+    F: Derivative<N, D, T> + 'a,
+    DefaultAllocator: Allocator<N, D>,
+{
+    /// Verification accessor: (tolerance, dt_min, dt_max, start, end) as set so far.
+    /// Euler has a single time step, reported as both dt_min and dt_max.
+    pub fn verif_params(&self) -> [Option<f64>; 5] {
+        let f = |x: &Option<N::RealField>| x.clone().map(crate::verif_hooks::to_f64);
+        [
+            None,
+            f(&self.init_dt),
+            f(&self.init_dt),
+            f(&self.init_time),
+            f(&self.init_end),
+        ]
     }
 }
 
